@@ -454,6 +454,14 @@ func (env *Env) elab(x Expr) Val {
 			}
 			return Val{T: v.T, S: not(v.S)}
 		}
+		if x.Op == "&" {
+			// &lvalue: the location of a field, element or dereference
+			loc, t, ok := env.addr(x.X)
+			if !ok {
+				fail("cannot take the address of %s", exprString(x.X))
+			}
+			return Val{T: types.NewPointer(t), S: loc}
+		}
 		v := env.elab(x.X)
 		switch x.Op {
 		case "-":
@@ -1142,6 +1150,14 @@ func (c *Ctx) compileSpec(sp *SpecFn) *compiledSpec {
 		kw = "define-fun-rec"
 	}
 	cs.text = fmt.Sprintf("(%s %s (%s) %s %s)", kw, sp.Name, strings.Join(ps, " "), c.sortOf(cs.result), v.S)
+	if !sp.Rec {
+		for _, bad := range []string{"(ite ", "(let ", "(forall ", "(exists ", "(=> ", "(and ", "(or ", "(not "} {
+			if strings.Contains(v.S, bad) {
+				connectiveMacros.Store(sp.Name, true)
+				break
+			}
+		}
+	}
 	c.specOrder = append(c.specOrder, sp.Name)
 	return cs
 }
